@@ -5,7 +5,7 @@ import numpy as np
 import pandas as pd
 
 import designs
-from common import Result, ask, rng_for
+from common import Result, ask, rng_for, known_findings
 
 ASSUMPTIONS = [
     "Spec.C15.expected (what the response matrix must be, from the response expression and the data) "
@@ -34,6 +34,20 @@ ASSUMPTIONS += [
     "Int64 / UInt64 (with and without pd.NA) holding integers beyond 2**53 that float64 cannot "
     "represent; values cross the protocol as Python integers",
 ]
+ASSUMPTIONS += [
+    "a categorical response written as a boxing call -- C(v), T(v), S(v), C(v, Treatment), C(v, Sum), "
+    "T(v, ref), C(v, levels=...) -- over int64 columns whose values do not sort like their string forms "
+    "(1, 2, 10; negatives and several digits drawn per frame), float columns (fractions such as 0.5, "
+    "2.25, 10.0, -10.25 and integer-valued floats), str / unordered / ordered Categorical columns, with "
+    "level lists for levels= that are not in sorted order: judged by Spec.C15.expected (one indicator "
+    "column per level; order = levels= / declared order of an ordered Categorical / sorted, numbers "
+    "numerically; `levels` = str of the levels, float levels as Python prints them -- modelled for "
+    "dyadic fractions with at most four binary places, Spec.C15.floatLabel)",
+    "responses that ask for sum-to-zero coding (Spec.C15.classD33: S(v ...), C(v, Sum ...)) that come "
+    "back exactly as recorded (Spec.C15.d33Returned: the full-rank Sum coding of the levels in the "
+    "prescribed order) are attributed to the finding KF-C15-D33 while it is open; any other deviation of "
+    "such a response (e.g. a wrong level order) is a plain failure",
+]
 TRUSTED = ["pandas dtype inference for the response column"]
 
 RESPONSES = ["y", "yc", "cu", "co", "yc[yes]", "yc['yes']", "yc[\"maybe\"]", "cu[m3]", "co[lo]",
@@ -43,6 +57,19 @@ RESPONSES = ["y", "yc", "cu", "co", "yc[yes]", "yc['yes']", "yc[\"maybe\"]", "cu
              "center(y)",
              # a single observed level; integers beyond 2**53 in numpy and nullable integer columns
              "one", "bi", "bI", "bu", "bU", "bN", "`bI`"]
+# a categorical response written as a boxing call, over numeric columns whose values do not sort the
+# same way as their string forms (k: 1, 2, 10; kn: negatives and several digits; vf: floats with
+# fractions; wf: integer-valued floats), over str / Categorical / ordered columns, with a contrast
+# named and with the order declared by levels=
+BOX_RESPONSES = ["C(k)", "T(k)", "S(k)", "C(k, Treatment)", "C(k, levels=lv_k)", "T(k, 2)",
+                 "C(kn)", "T(kn)", "S(kn)", "C(kn, Treatment)", "C(kn, levels=lv_kn)", "C(kn, Sum)",
+                 "C(vf)", "T(vf)", "S(vf)", "C(vf, Treatment)", "C(wf)", "T(wf)", "S(wf)",
+                 "C(kz)", "T(kz, 0)", "C(yc)", "T(yc)", "S(yc)", "C(yc, Treatment)",
+                 "C(yc, levels=lv_yc)", "T(yc, 'no')", "C(cu)", "T(cu)", "C(co)", "T(co)", "S(co)",
+                 "C(cu, levels=lv_cu)", "T(h)"]
+KN_POOL = [-12, -2, -1, 0, 3, 9, 10, 11, 100, -100, 25]
+VF_POOL = [-3.0, -0.5, 0.5, 2.25, 9.0, 10.0, 10.5, 100.0, 0.0625, -10.25, 1.5]
+WF_POOL = [2.0, 9.0, 10.0, -1.0, 100.0, 11.0, 0.0]
 VARIANTS = ["one_row", "one_complete"]
 # unusual but legitimate level spellings: the empty string, Python keywords / literals spelled as text,
 # blanks inside and around, numeric-looking text.  (None of them contains a quote character.)
@@ -57,13 +84,14 @@ RHS = ["x", "f", "x + f", "f:x + g", "0 + f", "x + (1 | g)", "(x | g) + f", "C(k
        "center(x):f", "1", "0 + x + (0 + f | h)", "0", "-1", "0 + (1 | g)"]
 
 
-def run(formula, df):
+def run(formula, df, names=None):
     import contextlib
     import io
     import formulae
     try:
         with contextlib.redirect_stdout(io.StringIO()):     # the library prints when a call raises
-            dm = formulae.design_matrices(formula, df, extra_namespace=designs.namespace())
+            dm = formulae.design_matrices(formula, df,
+                                          extra_namespace=dict(designs.namespace(), **(names or {})))
     except Exception as e:  # noqa
         return {"err": type(e).__name__}, None
     return None, dm
@@ -83,6 +111,32 @@ def add_level_columns(r, df):
     df["cq"] = pd.Categorical(draw(QCAT), categories=QCAT)
     df["cqo"] = pd.Categorical(draw(QCAT), categories=QCAT, ordered=True)
     return df
+
+
+def add_factor_columns(r, df):
+    """numeric factors whose sorted order is not the order of their string forms (every level
+    occurs), and the level lists (not sorted) that `levels=` declares for them
+    -> {name: list} for the formula namespace"""
+    n = len(df)
+
+    def draw(levels):
+        xs = [r.choice(levels) for _ in range(n)]
+        for i, l in enumerate(levels):
+            xs[i % n] = l
+        r.shuffle(xs)
+        return xs
+
+    def unsorted(levels):
+        out = list(levels)
+        while len(out) > 1 and out == sorted(levels):
+            r.shuffle(out)
+        return out
+    kn = r.sample(KN_POOL, r.randrange(3, 6))
+    df["kn"] = np.array(draw(kn), dtype="int64")
+    df["vf"] = np.array(draw(r.sample(VF_POOL, r.randrange(3, 6))), dtype=float)
+    df["wf"] = np.array(draw(r.sample(WF_POOL, r.randrange(3, 5))), dtype=float)
+    return {"lv_k": unsorted([1, 2, 10]), "lv_kn": unsorted(kn),
+            "lv_yc": unsorted(["no", "yes", "maybe"]), "lv_cu": unsorted(designs.LV["cu"])}
 
 
 def add_int_columns(r, df):
@@ -172,12 +226,13 @@ def explore(tier, seed, res=None, replay=None):
     res.rule = ("%d response forms (numeric, str, Categorical, ordered, y[ident], y['quoted'] incl. the "
                 "empty level / keyword-like / blank-containing / numeric-looking levels, calls, prop "
                 "with column or constant trials, a one-level factor, int64 / uint64 / nullable Int64 / "
-                "UInt64 columns with integers beyond 2**53) x right-hand sides x generated frames, "
+                "UInt64 columns with integers beyond 2**53, boxing calls C / T / S over int, float, str and "
+                "Categorical columns with and without a contrast / levels=) x right-hand sides x generated frames, "
                 "each frame also cut down to one row and to one complete row; every prop "
                 "response also evaluated on new frames shorter than, as long as and longer than the "
                 "training frame; plus non-single-term responses and formulas without a response; "
                 "non-trivial = a categorical, subset or prop response; distinct by (formula, frame "
-                "seed)" % (len(RESPONSES) + len(LEVEL_RESPONSES)))
+                "seed)" % (len(RESPONSES) + len(LEVEL_RESPONSES) + len(BOX_RESPONSES)))
     n_frames = 3 if tier == "quick" else 10
     rhs_pool = list(RHS)
     rng0 = rng_for(seed, "c15", "rhs")
@@ -199,13 +254,21 @@ def explore(tier, seed, res=None, replay=None):
                 for li, resp in enumerate(LEVEL_RESPONSES):
                     if (ri + li + fi) % (3 if tier == "thorough" else 9) == 0:
                         cases.append((f"{resp} ~ {rhs}", fi, None))
+                # categorical responses written as boxing calls
+                for li, resp in enumerate(BOX_RESPONSES):
+                    if (ri + li + fi) % (4 if tier == "thorough" else 6) == 0:
+                        cases.append((f"{resp} ~ {rhs}", fi, None))
                 # degenerate sizes: one row, one complete row
                 for vi, variant in enumerate(VARIANTS):
                     for li, resp in enumerate(RESPONSES + LEVEL_RESPONSES[:3]):
                         if (ri + li + fi + vi) % (4 if tier == "thorough" else 7) == 0:
                             cases.append((f"{resp} ~ {rhs}", fi, variant))
+                    for li, resp in enumerate(BOX_RESPONSES):
+                        if (ri + li + fi + vi) % (16 if tier == "thorough" else 21) == 0:
+                            cases.append((f"{resp} ~ {rhs}", fi, variant))
                 k += 1
     frames = {}
+    fnames = {}
     news = {}
     base_cache = {}
     pred_reqs, pred_owners = [], []
@@ -217,13 +280,15 @@ def explore(tier, seed, res=None, replay=None):
             frames[fi]["nbig"] = frames[fi]["n"] + 250
             add_level_columns(rng_for(seed, "c15", "levels", fi), frames[fi])
             add_int_columns(rng_for(seed, "c15", "ints", fi), frames[fi])
+            fnames[fi] = dict(designs.NAMES, **add_factor_columns(rng_for(seed, "c15", "factors", fi),
+                                                                  frames[fi]))
             news[fi] = new_frames(rng_for(seed, "c15", "new", fi), frames[fi])
         if variant is not None and (fi, variant) not in frames:
             frames[(fi, variant)] = variant_frame(rng_for(seed, "c15", "variant", fi, variant),
                                                   frames[fi], variant)
         df = frames[fi] if variant is None else frames[(fi, variant)]
         res.evaluations += 1
-        err, dm = run(formula, df)
+        err, dm = run(formula, df, fnames[fi])
         case = {"formula": formula, "seed_path": fi}
         if variant is not None:
             case["variant"] = variant
@@ -247,10 +312,10 @@ def explore(tier, seed, res=None, replay=None):
             continue
         reqs.append({"op": "c15_spec", "formula": formula,
                      "frame": designs.frame_json(used),
-                     "names": designs.names_json(designs.NAMES),
+                     "names": designs.names_json(fnames[fi]),
                      "matrix": matrix, "shape": shape, "kind": rm.kind,
                      "levels": None if rm.levels is None else [str(x) for x in rm.levels]})
-        owners.append((case, rm.kind, shape))
+        owners.append((case, rm.kind, shape, None if rm.levels is None else [str(x) for x in rm.levels]))
         res.count("retained_rows:" + ("1" if len(used) == 1 else "2+")
                   + ("" if variant is None else ":" + variant))
         resp, rhs = formula.split(" ~ ", 1)
@@ -281,7 +346,7 @@ def explore(tier, seed, res=None, replay=None):
         # predictor independence: same right-hand side, response `y`
         key = (rhs, fi, variant)
         if key not in base_cache:
-            e0, d0 = run("y ~ " + rhs, df)
+            e0, d0 = run("y ~ " + rhs, df, fnames[fi])
             base_cache[key] = None if e0 else {
                 "kept": kept_rows(d0, df),
                 "common": None if d0.common is None else designs.mat(d0.common.design_matrix),
@@ -303,35 +368,47 @@ def explore(tier, seed, res=None, replay=None):
             res.samples.append({"formula": formula, "kind": rm.kind,
                                 "levels": None if rm.levels is None else list(map(str, rm.levels))})
         _ = t
-    for (case, kind, shape), sp in zip(owners, ask(reqs)):
+    open_ids = {k["id"] for k in known_findings("C15")}
+    for (case, kind, shape, levels), sp in zip(owners, ask(reqs)):
         if "err" in sp:
             res.count("spec_skip:" + sp["err"] + ":" + str(sp.get("what"))[:30])
             continue
         res.traces += 1
+        # D33: a response that asks for sum-to-zero coding (class decided by Spec.C15.classD33) AND is
+        # returned exactly as recorded (Spec.C15.d33Returned: the full-rank Sum coding of the levels
+        # in the prescribed order); any other deviation of such a response is a plain failure
+        fid = None
+        if sp.get("class_d33") and sp.get("d33_as_recorded") and "KF-C15-D33" in open_ids:
+            fid = "KF-C15-D33"
+        fails = []
         if not sp.get("shape_holds"):
-            res.failures.append({"case": case, "impl": {"kind": kind, "shape": shape},
-                                 "expected": {"rows": sp.get("expected_rows"),
-                                              "levels": sp.get("expected_levels"),
-                                              "kind": sp.get("expected_kind")},
-                                 "finding": None,
-                                 "why": "shape of response.design_matrix: not one row per retained "
-                                        "observation with one indicator column per level / the two "
-                                        "columns of prop / a single column"})
+            fails.append({"case": case, "impl": {"kind": kind, "shape": shape, "levels": levels},
+                          "expected": {"rows": sp.get("expected_rows"),
+                                       "levels": sp.get("expected_levels"),
+                                       "kind": sp.get("expected_kind")},
+                          "finding": fid,
+                          "why": "shape of response.design_matrix: not one row per retained "
+                                 "observation with one indicator column per level / the two "
+                                 "columns of prop / a single column"})
         if sp.get("bare_numeric"):
             res.count("numeric_response_exact")
             if not sp.get("unchanged"):
-                res.failures.append({"case": case, "impl": {"kind": kind, "shape": shape},
-                                     "expected": "the column of the frame, entry by entry (exact)",
-                                     "finding": None,
-                                     "why": "a numeric response is not returned unchanged (exact "
-                                            "comparison of every entry with the frame)"})
+                fails.append({"case": case, "impl": {"kind": kind, "shape": shape},
+                              "expected": "the column of the frame, entry by entry (exact)",
+                              "finding": None,
+                              "why": "a numeric response is not returned unchanged (exact "
+                                     "comparison of every entry with the frame)"})
         if not sp.get("holds"):
-            res.failures.append({"case": case, "impl": {"kind": kind},
-                                 "expected": {"levels": sp.get("expected_levels"),
-                                              "kind": sp.get("expected_kind")},
-                                 "finding": None,
-                                 "why": "response matrix / levels / kind differ from what the response "
-                                        "expression denotes"})
+            fails.append({"case": case, "impl": {"kind": kind, "levels": levels},
+                          "expected": {"levels": sp.get("expected_levels"),
+                                       "kind": sp.get("expected_kind")},
+                          "finding": fid,
+                          "why": "response matrix / levels / kind differ from what the response "
+                                 "expression denotes (a categorical response: one indicator column "
+                                 "per level, sorted -- numbers numerically -- or in declared order)"})
+        if fails and fid:
+            res.known_hit[fid] = res.known_hit.get(fid, 0) + 1
+        res.failures.extend(fails)
     for pcase, sp in zip(pred_owners, ask(pred_reqs)):
         if "err" in sp or "holds" not in sp:
             res.count("spec_skip:predict:" + str(sp.get("err")) + ":" + str(sp.get("what"))[:30])
